@@ -558,6 +558,58 @@ func genRetain(r *rng.R) corr.Case {
 	return corr.Case{Tag: "retain", Lines: lines}
 }
 
+// genVarintMalformed: overflowing / truncated / over-long varints through all four ReadVar* of BufferX (ReaderX has no
+// varint readers): 10+ continuation bytes (0xff…, 0x80…), nine + a tenth byte of 0x02…0x7f, nine + 0x00/0x01 (legal),
+// fewer than needed; followed by more bytes so that what a faulty read leaves behind shows too.
+func genVarintMalformed(r *rng.R) corr.Case {
+	var lines []string
+	for seg := r.Range(1, 3); seg > 0; seg-- {
+		k := r.PickInt(9, 9, 10, 10, 11, 12, 20, r.Range(0, 8))
+		var b []byte
+		for i := 0; i < k; i++ {
+			b = append(b, byte(r.PickInt(0xff, 0xff, 0x80, 0x81, 0x80|r.Intn(128))))
+		}
+		if r.Chance(3, 4) { // a final byte: legal end, tenth byte too big, or none (truncated)
+			b = append(b, byte(r.PickInt(0, 1, 2, 3, 0x7f, r.Intn(128))))
+		}
+		b = append(b, genBytes(r, r.Range(0, 4))...)
+		lines = append(lines, "load "+showRawHex(b))
+		for i := r.Range(1, 3); i > 0; i-- {
+			lines = append(lines, r.Pick("rvu64", "rvi64", "rvu32", "rvi32"))
+		}
+		lines = append(lines, "len", "ru8")
+	}
+	return corr.Case{Tag: "varint-malformed", Lines: lines}
+}
+
+// genSourceFail: the encoding of a few values behind a source that FAILS (an I/O error, not EOF) after k bytes, for
+// every k inside the encoding, under several chunkings; the reads must report an error from the failure point on.
+func genSourceFail(r *rng.R) corr.Case {
+	var ws, reads []string
+	for i := r.Range(1, 3); i > 0; i-- {
+		w := genWrite(r)
+		if strings.HasPrefix(w, "wv") {
+			w = "wu64 " + strconv.FormatUint(genU(r, 64), 10)
+		}
+		if wv, _ := parseWrite(strings.Fields(w)); wv.op == "wlstr" && uint64(wv.size) > uint64(wv.limit) {
+			continue
+		}
+		ws = append(ws, w)
+		reads = append(reads, readFor(r, w))
+	}
+	reads = append(reads, genRead(r, true))
+	b := encode(ws)
+	if len(b) > 40 {
+		b = b[:40]
+	}
+	var lines []string
+	for k := 0; k <= len(b); k++ {
+		lines = append(lines, "sloadf "+r.Pick("0", "0", "1")+" "+chunk(r, b[:k], r.Intn(3)))
+		lines = append(lines, reads...)
+	}
+	return corr.Case{Tag: "source-fail", Lines: lines}
+}
+
 var junkTokens = []string{"", "x", "-", "--1", "-0", "00", "0x10", "1e3", "256", "65536", "4294967296", "18446744073709551616",
 	"99999999999999999999", "999999999999999999999", "-9223372036854775809", "-32769", "abc", "ABCD", "0g", "123", "+1", "1048577", "-1048577", ".", ","}
 
@@ -643,6 +695,19 @@ func fixedCases() []corr.Case {
 		c("big-fixed", "new", "wlstr 65536 p9:65536", "wu8 9", "tostream 0 r12345", "rlstr 65536", "ru8"),
 		c("big-fixed", "new", "wraw p10:200000", "tostream 1 r7", "readn 200000", "ru8"),
 		c("big-fixed", "tload 65539 wstr p11:65536", "rstr", "len", "tload 65540 wstr p11:65536", "rstr", "len"),
+		// malformed varints through every ReadVar* of BufferX: never a value
+		c("varint-malformed-fixed", "load ffffffffffffffffffff07", "rvu64", "len", "load ffffffffffffffffffff07", "rvi64", "len",
+			"load ffffffffffffffffffff07", "rvu32", "len", "load ffffffffffffffffffff07", "rvi32", "len"),
+		c("varint-malformed-fixed", "load 80808080808080808080808001", "rvu64", "len", "ru8"),
+		c("varint-malformed-fixed", "load ffffffffffffffffff0207", "rvu64", "len", "load ffffffffffffffffff7f07", "rvi64", "len",
+			"load ffffffffffffffffff0207", "rvu32", "len", "load ffffffffffffffffff0207", "rvi32", "len"),
+		c("varint-malformed-fixed", "load ffffffffffffffffff0107", "rvu64", "ru8", "load ffffffffffffffffff", "rvu64", "load ff", "rvi32"),
+		// a source that fails with an I/O error after k bytes, k = every position inside a u32 / a string
+		c("source-fail-fixed", "sloadf 0 .", "ru32", "sloadf 0 01", "ru32", "sloadf 0 01,00", "ru32", "sloadf 0 0100,00", "ru32",
+			"sloadf 0 01000000", "ru32", "ru8", "sloadf 1 01000000", "ru32", "ru8"),
+		c("source-fail-fixed", "sloadf 0 03", "rstr", "sloadf 0 03000000", "rstr", "sloadf 0 0300000061", "rstr", "sloadf 0 030000006162", "rstr",
+			"sloadf 0 03000000616263", "rstr", "rstr", "sloadf 0 00000000", "rstr", "rbool", "read 0", "zreadn 0", "readn 2"),
+		c("source-fail-fixed", "sloadf 0 0102030405060708,09", "ru64", "ru16", "sloadf 1 01020304050607", "ru64", "sloadf 0 01", "rbool", "rbool", "ru8"),
 		// the package's sentinel errors: non-nil, distinct, with their texts
 		c("sentinels", "sentinels", "load 0102", "ru32", "sentinels"),
 		// ReWrite on big buffers, and with a payload that aliases the buffer's own storage
@@ -732,6 +797,12 @@ func spec() corr.Spec {
 			if i%20 == 13 {
 				return genRetain(r)
 			}
+			if i%40 == 7 {
+				return genVarintMalformed(r)
+			}
+			if i%40 == 27 {
+				return genSourceFail(r)
+			}
 			switch i % 10 {
 			case 0, 1, 2:
 				return genRoundTrip(r)
@@ -768,13 +839,15 @@ func spec() corr.Spec {
 			"(big) strings / raw bytes of 4095..262144 bytes (1 MiB beyond quick) through the buffer, cut near the end, and through streams chunked 1, 2, 4095, 4096, 65536, 1 MiB or randomly; " +
 			"(rewrite-big / rewrite-alias) ReWrite and ReWriteU32 on buffers of 64..256 KiB incl. the length-placeholder idiom, payloads > 64 KiB and payloads that alias the buffer (`rewriteself`); " +
 			"(huge-value) single values of 1 MiB+1 .. 2 MiB in quick, 16 MiB+1 and 64 MiB+1 in thorough/search (`bigrt`), buffer and stream; (sentinels) the error variables are non-nil, distinct, with their texts; " +
+			"(varint-malformed) 0..20 continuation bytes (0xff.., 0x80..) with legal / too big / missing last byte through rvu64, rvi64, rvu32, rvi32; " +
+			"(source-fail) `sloadf`: the source fails with an I/O error after k bytes, k = every position inside the encoding of 1..3 values, several chunkings; " +
 			"(retain) several raw / string fields in a row (0..9000 bytes, around 64 and 4096) from a buffer or a stream, every slice handed out looked at again by `recheck` and at the end of the script; " +
 			"(huge-prefix-probe, T) length fields 2^25..2^32-1 read by the real ReaderX in a memory-capped child process. Non-trivial = at least one read returned a value; distinct = distinct script text",
 		Assumptions: []string{
 			"encoding/binary (LittleEndian put/get, PutUvarint/ReadUvarint/PutVarint/ReadVarint), bytes.Buffer (Read/Next/ReadByte/Write/Bytes) and io.ReadFull behave as modelled (validated by the correspondence runs, not proved)",
 			"math.Float64bits / math.Float64frombits are mutually inverse bijections that keep NaN payloads (float64 values are identified with their 64-bit pattern)",
 			"strings longer than 2^32-1 bytes are outside the correspondence (the model keeps the uint32 truncation of the length; the round-trip theorem assumes length < 2^32)",
-			"an io.Reader is modelled as a finite list of chunks: each Read delivers at most the first chunk, (0, nil) for an empty chunk, io.EOF after the last one or (eager) together with it; readers that fail with another error than io.EOF, or return (0, nil) forever (io.ReadFull then spins), are outside the quantifier of the stream theorems and of the correspondence",
+			"an io.Reader is modelled as a finite list of chunks: each Read delivers at most the first chunk, (0, nil) for an empty chunk, io.EOF after the last one or (eager) together with it; a source may also end with an I/O error of its own instead of io.EOF (`sloadf`, model field Src.fail); readers that return (0, nil) forever (io.ReadFull then spins) or fail and later recover are outside the quantifier of the stream theorems and of the correspondence",
 			"generated stream scripts answer `guard:huge` without executing a ReaderX string read whose pending length field exceeds 2^24 (ReadN would make([]byte, n) for it); the range 2^24..2^32-1 is exercised only by the fixed `xrstr`/`xrlstr` probes, which run the real read in a child process capped at 4 GiB of address space (observed: up to 2 GiB the read answers as the model says after allocating that much; 4 GiB-1 kills the process with the runtime's fatal out-of-memory — an abort, not an error value; uncapped it stalls for about 90 s here)",
 			"Go's int is 64 bits wide (regenerated as Nv.Gen.C10.intBits from strconv.IntSize): on a 32-bit int a length field >= 2^31 would make buffer.Next panic (Lean witness witness_int32_panics)",
 			"values up to 1 MiB are exercised (pattern tokens p<seed>:<n>, results printed as length + digest); fine chunkings (1 and 2 bytes) only up to 5 000 / 70 000 bytes because the oracle's chunk loop recurses per chunk",
